@@ -10,6 +10,9 @@ Correspondence: Lean `Capella.Txn` (driver `Txn`) gets the same fragments / sche
 and must produce the same call trace, error, transaction state and directory contents.
 Monitor: directory listing + hashes before/after, the exception object the caller sees (identity with
 the injected one), the private transaction set, the retry.
+Round 5: scenarios whose written files (or whose sub-directory) are symbolic links; the listing (`area`) covers the root
+and every directory a link leads into and enters a link as a link (text, kind of target) - a stray file beside a link's
+target, a link that stops being one after a failed save, a changed target are all seen.
 """
 
 from __future__ import annotations
@@ -26,7 +29,10 @@ import sys
 import common
 from common import Ctx, Outcome
 
-RULE = ("histories of several saves on the same model object (edits of some files, dry runs, failed saves, then a real save); "
+RULE = ("scenarios: models and direct transactions on regular files, and (round 5) with one / several written files that are symbolic links "
+        "(leading beside the root: same name, other name, deeper, nowhere; leading inside the root through a second link) and with a "
+        "sub-directory that is a link to a directory beside the root; the disk snapshot covers the root and every directory a link leads into; "
+        "histories of several saves on the same model object (edits of some files, dry runs, failed saves, then a real save); "
         "every fault point of every scenario is enumerated (index 0,1,2,... over the effectful calls of one save until "
         "the call count of the fault-free run is exceeded) x fault kinds x {normal, dry_run} x side-effect-before-error flag; "
         "fault sequences = every pair (first fault, later fault reached after it) in thorough, seeded sample in quick; "
@@ -37,6 +43,9 @@ ASSUMPTIONS = [
     "temp names: the handler refuses a write whose temp name clashes with another file of the transaction (modelled: `clash`; proved: a successful save has usable temp names, a clashing one is refused before the file is touched; for the real _tmpname usable names follow from 'last component <= 250 bytes and not shaped .*.tmp'). A file that exists beforehand under the temp name of a written file is treated as a stale temp file (known finding tmp-named-file-lost)",
     "nobody else touches the directory during the transaction (documented precondition of write_transaction)",
     "power loss / fsync durability is not part of the property and not modelled",
+    "symbolic links: rename(2) and unlink(2) act on the directory entry itself, open(2) follows a link at the last component (POSIX); the "
+    "directory map of the model holds entries as lstat sees them, a link being one entry and what it leads to another; whether a SUCCESSFUL "
+    "save replaces a link by a regular file (as coded) or writes what it leads to is observed, not judged by the monitor",
 ]
 TRUSTED = ["C15: fault-injection shims around pathlib.Path.open/replace/unlink and exs.serialize in harness/props/c15.py"]
 DRIVERS = ["Txn"]
@@ -48,6 +57,8 @@ MANIFEST = dict(
           "complete contents only; under arbitrary fault sequences every file is old or complete-new and the transaction is "
           "always reset; the temp-name check of open() is exact, a successful save implies usable temp names, a save with "
           "after any history of earlier saves (failed, dry, successful, edited in between) a fault-free save installs every file; "
+          "a failed or dry-run save leaves every symbolic link a link, what it leads to unchanged and no new entry anywhere (the map covers the "
+          "directories links lead into); "
           "clashing temp names (long names sharing a 250-byte prefix, a name that is another file's temp name) is refused "
           "before the clashing file is touched; _tmpname is byte-bounded (<= 255 bytes) and injective on names <= 250 bytes. Tied to /repo by running the real save with a fault at every effectful call (trace, error, "
           "directory hashes, transaction state compared with the model) and an independent before/after monitor."),
@@ -240,22 +251,93 @@ def injecting(inj: Injector):
 # ------------------------------------------------------------------ scenarios
 
 
-def snapshot(root: pathlib.Path) -> dict[str, bytes]:
-    out = {}
-    for dp, _dn, fn in os.walk(root):
-        for f in fn:
-            p = pathlib.Path(dp, f)
-            out[p.relative_to(root).as_posix()] = p.read_bytes()
+LINK = b"\0symlink\0"   # a directory entry that is a symbolic link: LINK + link text + b"\0" + what it leads to
+
+
+def area(root: pathlib.Path, outer: pathlib.Path | None = None) -> tuple[dict[str, bytes], set[str]]:
+    """Every directory entry of the scenario's area as `lstat` sees it: ({name: entry}, {directory names}).
+
+    The area is the handler's root plus - when the scenario has symbolic links - the enclosing directory `outer`
+    that holds every directory a link leads into (checked when the scenario is built).  Names are relative to the
+    root (`../shared/x` for an entry outside).  A regular file is entered with its bytes; a symbolic link is entered
+    AS A LINK (its text and whether it leads to a file, a directory or nowhere) - the content behind it is entered
+    under the target's own name.  A link to a directory is walked through under the name the handler uses
+    (`sub/x`); a directory reached a second time (its real path was seen already) is not listed twice."""
+    files: dict[str, bytes] = {}
+    dirs: set[str] = set()
+    seen: set[str] = set()
+
+    def walk(d: str, shown: str):
+        real = os.path.realpath(d)
+        if real in seen:
+            return
+        seen.add(real)
+        with os.scandir(d) as it:
+            ents = sorted(it, key=lambda e: e.name)
+        for e in ents:
+            name = shown + e.name
+            if e.is_symlink():
+                isdir = os.path.isdir(e.path)
+                state = b"dir" if isdir else b"file" if os.path.exists(e.path) else b"dangling"
+                files[name] = LINK + os.fsencode(os.readlink(e.path)) + b"\0" + state
+                if isdir:
+                    dirs.add(name)
+                    walk(e.path, name + "/")
+            elif e.is_dir(follow_symlinks=False):
+                dirs.add(name)
+                walk(e.path, name + "/")
+            else:
+                files[name] = pathlib.Path(e.path).read_bytes()
+
+    walk(str(root), "")
+    if outer is not None and outer != root:
+        walk(str(outer), pathlib.PurePosixPath(os.path.relpath(str(outer), str(root))).as_posix() + "/")
+    return files, dirs
+
+
+def snapshot(root: pathlib.Path, outer: pathlib.Path | None = None) -> dict[str, bytes]:
+    return area(root, outer)[0]
+
+
+def dirs_of(root: pathlib.Path, outer: pathlib.Path | None = None) -> set[str]:
+    """every directory of the area (empty ones and links to directories included), relative to the root"""
+    return area(root, outer)[1]
+
+
+def chain_of(snap: dict[str, bytes], rel: str) -> list[str]:
+    """the names visited when `rel` is opened for reading in the directory `snap` describes: rel itself, then - while the
+    entry is a symbolic link - the name its text leads to (resolved against the link's folder, lexically; the scenarios
+    have no link text that climbs out of a linked folder)"""
+    out = [rel]
+    while len(out) < 10:
+        e = snap.get(out[-1])
+        if e is None or not e.startswith(LINK):
+            break
+        text = os.fsdecode(e[len(LINK):].rsplit(b"\0", 1)[0])
+        out.append(pathlib.PurePosixPath(os.path.normpath(os.path.join(os.path.dirname(out[-1]), text))).as_posix())
     return out
 
 
-def dirs_of(root: pathlib.Path) -> set[str]:
-    """every directory below root (empty ones included), relative"""
-    out = set()
-    for dp, dn, _fn in os.walk(root):
-        for d in dn:
-            out.add(pathlib.Path(dp, d).relative_to(root).as_posix())
-    return out
+def through(snap: dict[str, bytes], rel: str) -> bytes | None:
+    """what reading `rel` gives (links followed); None: nothing there, or a link that leads nowhere"""
+    e = snap.get(chain_of(snap, rel)[-1])
+    return None if e is None or e.startswith(LINK) else e
+
+
+def put_back(root: pathlib.Path, rel: str, entry: bytes) -> None:
+    """harness housekeeping between cases: make `rel` the entry it was in an earlier snapshot"""
+    p = root / rel
+    if entry.startswith(LINK):
+        text = os.fsdecode(entry[len(LINK):].rsplit(b"\0", 1)[0])
+        if p.is_symlink() and os.readlink(p) == text:
+            return
+        if p.is_symlink() or p.is_file():
+            p.unlink()
+        p.symlink_to(text)
+    else:
+        if p.is_symlink():
+            p.unlink()
+        p.write_bytes(entry)
 
 
 def parent_missing(rel: str, dirs: set[str]) -> bool:
@@ -272,6 +354,44 @@ class Scenario:
     label: str
     root: pathlib.Path
     handler: object
+    outer: pathlib.Path | None = None     # scenarios with symbolic links: the directory that holds the root AND every link target
+    layout: dict[str, bytes] | None = None  # their entries (links and what they lead to) as built; re-established before a case
+    light = False                          # fewer fault sequences / histories in quick (single faults stay exhaustive)
+
+    def snap(self) -> dict[str, bytes]:
+        return snapshot(self.root, self.outer)
+
+    def dirs(self) -> set[str]:
+        return dirs_of(self.root, self.outer)
+
+    def seal(self, outer: pathlib.Path) -> None:
+        """called when a scenario with links has been built: remember the layout; every link must lead into `outer`"""
+        self.outer = outer
+        snap = self.snap()
+        self.layout = {rel: e for rel, e in snap.items() if e.startswith(LINK)}
+        assert self.layout, "a link scenario without links"
+        for rel in list(self.layout):
+            real = os.path.realpath(self.root / rel)
+            assert os.path.commonpath([real, os.path.realpath(outer)]) == os.path.realpath(outer), (rel, real)
+            # the file a link leads to (the snapshot has it under its own name)
+            name = pathlib.PurePosixPath(os.path.relpath(real, os.path.realpath(self.root))).as_posix()
+            if name in snap and not snap[name].startswith(LINK):
+                self.layout[name] = snap[name]
+
+    def prepare(self) -> None:
+        """A successful save replaces a link by a regular file (see design/C15.md, round 5); the next CASE starts from the
+        layout as built: links are links again and lead to what they led to."""
+        if self.layout:
+            for rel, e in self.layout.items():
+                if self.snap_entry(rel) != e:
+                    put_back(self.root, rel, e)
+
+    def snap_entry(self, rel: str) -> bytes | None:
+        p = self.root / rel
+        if p.is_symlink():
+            isdir = os.path.isdir(p)
+            return LINK + os.fsencode(os.readlink(p)) + b"\0" + (b"dir" if isdir else b"file" if os.path.exists(p) else b"dangling")
+        return p.read_bytes() if p.is_file() else None
 
     def txn(self):
         return common.get_private(self.handler, "_LocalFileHandler__transaction", TXN_PRED, TXN_HINTS)
@@ -361,6 +481,16 @@ class DirectScenario(Scenario):
                         pass
 
 
+def make_link(root: pathlib.Path, rel: str, text: str) -> None:
+    """replace root/rel (a file or a directory) by a symbolic link with the given text; what was there moves to where the
+    link leads"""
+    p = root / rel
+    tgt = pathlib.Path(os.path.normpath(p.parent / text))
+    tgt.parent.mkdir(parents=True, exist_ok=True)
+    shutil.move(str(p), str(tgt))
+    p.symlink_to(text)
+
+
 def add_fragments(root: pathlib.Path, aird: str, n: int) -> None:
     """Capella-style fragmentation, as far as save() is concerned: extra semantic fragments in a
     sub-directory, referenced from the .aird (loaded as separate trees, written as separate files)."""
@@ -427,6 +557,52 @@ def build_scenarios(ctx: Ctx) -> list[Scenario]:
     scs[-1].keep = m
     scs[-1].natural = True
 
+    # ---- models some of whose files (or whose fragment folder) are symbolic links.  Layout: <label>/project is the
+    # handler's root, the links lead into sibling directories of it (and, in one scenario, to a place inside the root).
+    def linked_model(label, src_build, links, n_trees, light=True, loader_only=False, **kw):
+        outer = base / label.replace(":", "_")
+        d = outer / "project"
+        outer.mkdir()
+        aird = src_build(d)
+        for rel, text in links:
+            make_link(d, rel, text)
+        if loader_only:
+            ld = core.MelodyLoader(d / aird)
+            keep = None
+        else:
+            keep = capellambse.MelodyModel(d / aird)
+            ld = keep._loader
+        assert len(ld.trees) == n_trees, list(ld.trees)
+        sc = ModelScenario(label, d, ld, **kw)
+        sc.keep = keep
+        sc.light = light
+        sc.seal(outer)
+        scs.append(sc)
+
+    def wm(d):
+        shutil.copytree(data / "writemodel", d)
+        return "WriteTestModel.aird"
+
+    def wm_frag(d):
+        add_fragments(d, wm(d), 1)
+        return "WriteTestModel.aird"
+
+    def solo(d):
+        shutil.copytree(base / "minimal", d)
+        return "Solo.aird"
+
+    names3 = ["WriteTestModel.aird", "WriteTestModel.capella", "WriteTestModel.afm"]
+    one = ctx.rng.choice(names3)
+    # one link (which file: seeded) that leads outside the root
+    linked_model("model:one-link-outside", wm, [(one, f"../shared/{one}")], 3)
+    # several links; one target has another name than the link, one lies deeper
+    linked_model("model:links-outside", wm, [("WriteTestModel.aird", "../shared/WriteTestModel.aird"),
+                                              ("WriteTestModel.capella", "../shared/deep/Semantic model.capella")], 3)
+    # a link that leads to a place inside the root
+    linked_model("model:link-minimal-inside", solo, [("Solo.afm", "store/real name.afm")], 2, light=False, loader_only=True)
+    # the folder of the fragments is a link to a directory beside the root
+    linked_model("model:fragment-folder-linked", wm_frag, [("fragments", "../shared fragments")], 4, skip_bump=("WriteTestModel.afm",))
+
     if ctx.thorough:
         for sub, aird in (("Library Test", "Library Test.aird"), ("filtering", "Filtered Project.aird"),
                           ("melodymodel/5_2", "Melody Model Test.aird")):
@@ -445,15 +621,24 @@ def build_scenarios(ctx: Ctx) -> list[Scenario]:
             scs[-1].keep = m
 
     # direct transactions on the handler
-    def direct(label, ops, files):
-        d = base / label.replace(":", "_")
-        d.mkdir()
+    def direct(label, ops, files, links=None, outside=None):
+        outer = base / label.replace(":", "_")
+        outer.mkdir()
+        d = outer / "project" if links else outer
+        d.mkdir(exist_ok=True)
+        for rel, content in (outside or {}).items():     # what the links lead to (names relative to the root: ../x/y)
+            (d / rel).parent.mkdir(parents=True, exist_ok=True)
+            (d / rel).write_bytes(content)
+        for rel, text in (links or {}).items():
+            (d / rel).symlink_to(text)
         for rel, content in files.items():
             (d / rel).parent.mkdir(parents=True, exist_ok=True)
             (d / rel).write_bytes(content)
         sc = DirectScenario(label, d, local.LocalFileHandler(d), ops)
-        sc.natural = label in ("direct:dup", "direct:missing-dir", "direct:user-exc", "direct:nested")
+        sc.natural = label in ("direct:dup", "direct:missing-dir", "direct:user-exc", "direct:nested", "direct:links-user-exc")
         sc.user_exc = make_exc("UserError")
+        if links:
+            sc.seal(outer)
         scs.append(sc)
 
     direct("direct:one-file", [("w", "only.xml", "1")], {"only.xml": DECL + b"<old/>\n"})
@@ -464,6 +649,22 @@ def build_scenarios(ctx: Ctx) -> list[Scenario]:
     direct("direct:user-exc", [("w", "a.xml", "A"), ("w", "b.xml", "B"), ("raise",)], {"a.xml": b"old a"})
     direct("direct:nested", [("w", "a.xml", "A"), ("nested",), ("w", "b.xml", "B")], {"a.xml": b"old a", "b.xml": b"old b"})
     direct("direct:empty", [], {"a.xml": b"old a"})
+    # files that are symbolic links: into directories beside the root (same name, another name and deeper, leading nowhere)
+    direct("direct:links-outside", [("w", "a.xml", "A"), ("w", "b.xml", "B"), ("w", "c.xml", "C"), ("w", "d.xml", "D")],
+           {"b.xml": b"old b", "other.txt": b"bystander"},
+           links={"a.xml": "../shared/a.xml", "c.xml": "../shared/deep/another name.xml", "d.xml": "../shared/not-there.xml"},
+           outside={"../shared/a.xml": DECL + b"<old/>\n", "../shared/deep/another name.xml": b"old c", "../shared/bystander.txt": b"x"})
+    direct("direct:one-link-outside", [("w", "a.xml", "A"), ("w", "b.xml", "B")], {"a.xml": b"old a"},
+           links={"b.xml": "../elsewhere/b.xml"}, outside={"../elsewhere/b.xml": b"old b"})
+    # ... to a place inside the root, through a second link
+    direct("direct:link-inside", [("w", "a.xml", "A"), ("w", "b.xml", "B")], {"store/a-real.xml": b"old a", "b.xml": b"old b"},
+           links={"a.xml": "alias.xml", "alias.xml": "store/a-real.xml"})
+    # a sub-directory of the root is a link to a directory beside it
+    direct("direct:dir-linked", [("w", "a.xml", "A"), ("w", "sub/b.xml", "B"), ("w", "sub/new.xml", "N")],
+           {"a.xml": b"old a", "sub/b.xml": b"old b"}, links={"sub": "../shared sub"}, outside={"../shared sub/keep.txt": b"bystander"})
+    # the caller's own code fails after files behind links went to their temporary files
+    direct("direct:links-user-exc", [("w", "a.xml", "A"), ("w", "sub/b.xml", "B"), ("raise",)], {"sub/b.xml": b"old b"},
+           links={"a.xml": "../shared/a.xml", "sub": "../shared sub"}, outside={"../shared/a.xml": b"old a", "../shared sub/keep.txt": b"k"})
 
     # temp-name boundary cases: `_tmpname` cuts long names, so two targets can share a temp name, a temp name can be
     # a target, and (counted in characters) a temp name can exceed the 255-BYTE limit of the file system.
@@ -499,9 +700,10 @@ def run_case(sc: Scenario, schedule: dict[int, tuple[str, bool]], dry_run: bool,
         sc.bump()
     elif bump:
         sc.bump(only=bump)
+    if retry:          # a case of its own (not a step of a history): links are links again
+        sc.prepare()
     frags = sc.frags()
-    before = snapshot(sc.root)
-    dirs_before = dirs_of(sc.root)
+    before, dirs_before = area(sc.root, sc.outer)
     inj = Injector(sc.root, schedule, [p for p, _ in frags])
     seen: BaseException | None = None
     warnings: list[str] = []
@@ -525,8 +727,7 @@ def run_case(sc: Scenario, schedule: dict[int, tuple[str, bool]], dry_run: bool,
         lg.removeHandler(h)
         lg.propagate = propagate
     release_frames(seen, *[f[3] for f in inj.fired])
-    after = snapshot(sc.root)
-    dirs_after = dirs_of(sc.root)
+    after, dirs_after = area(sc.root, sc.outer)
     txn_after = sc.txn()
     # retry on the same object, no faults
     retry_exc: BaseException | None = None
@@ -538,10 +739,9 @@ def run_case(sc: Scenario, schedule: dict[int, tuple[str, bool]], dry_run: bool,
             except BaseException as e:  # noqa: BLE001
                 retry_exc = e
     release_frames(retry_exc)
-    final = snapshot(sc.root)
+    final, dirs_final = area(sc.root, sc.outer)
     # what the in-memory model serialises to NOW (after the save and the retry), outside any injection
     frags_post = sc.frags()
-    dirs_final = dirs_of(sc.root)
     txn_final = sc.txn()
     if txn_final is not None:  # never let one case poison the next
         common.set_private(sc.handler, "_LocalFileHandler__transaction", None, TXN_PRED, TXN_HINTS)
@@ -557,7 +757,7 @@ def run_case(sc: Scenario, schedule: dict[int, tuple[str, bool]], dry_run: bool,
                 (sc.root / rel).unlink()
         for rel, data in before.items():
             if final.get(rel) != data:
-                (sc.root / rel).write_bytes(data)
+                put_back(sc.root, rel, data)
     return dict(frags=frags, before=before, after=after, final=final, inj=inj, seen=seen, warnings=warnings,
                 dirs_before=dirs_before, dirs_after=dirs_after, dirs_final=dirs_final,
                 txn_after=txn_after, txn_final=txn_final, retry_exc=retry_exc, retry_trace=inj2.trace,
@@ -616,6 +816,7 @@ def monitor(sc: Scenario, schedule, dry_run: bool, r: dict) -> tuple[str, str] |
             renamed.append(p)
     first_ev = fired[0][1] if fired else None
     temps = {tmpname(p) for p in new}
+    behind_new = {q for p in new for q in chain_of(before, p)}   # the written names and, for links, what they led to
     where = f"{sc.label} dry_run={dry_run} schedule={ {k: v for k, v in sorted(schedule.items())} } fired={[(f[0], f[1], f[2]) for f in fired]}"
     cls_point = first_ev or r.get("history_tag") or ("natural" if natural else "nofault")
     # the bytes the in-memory model stands for, serialised afresh AFTER the save (and the retry) returned
@@ -640,6 +841,20 @@ def monitor(sc: Scenario, schedule, dry_run: bool, r: dict) -> tuple[str, str] |
     changed = sorted(p for p in set(before) | set(after) if before.get(p) != after.get(p))
     leftover = sorted(p for p in after if p not in before and p not in new)
     unlink_faults = [f for f in fired if f[1] == "unlink"]
+    # --- nothing but the written files and their temporary files (beside them) ever appears, in any outcome - neither
+    # in the root nor in a directory a symbolic link leads into
+    strays = [p for p in leftover if p not in temps]
+    if strays:
+        return bad("stray-file" + ("@outside-root" if any(p.startswith("../") for p in strays) else ""),
+                   f"files appeared that are neither files of the save nor their temporary files: {strays}")
+
+    def at_links(kind, paths):
+        """names the class of a change that hits a symbolic link or the file a link leads to"""
+        if any(before.get(p, b"").startswith(LINK) for p in paths):
+            return kind + "@link"
+        if sc.layout and any(p in sc.layout for p in paths):
+            return kind + "@link-target"
+        return kind
 
     failed = seen is not None
     if not fired and not natural:
@@ -647,16 +862,18 @@ def monitor(sc: Scenario, schedule, dry_run: bool, r: dict) -> tuple[str, str] |
             return bad("spurious-error", f"fault-free save raised {seen!r}")
     if not failed and not dry_run:
         # successful real save: complete new content, nothing else touched
+        # (read THROUGH a symbolic link: whether a successful save replaces the link by a regular file - as the code does
+        # today - or writes the file the link leads to is not judged here; either way the name must give the new content)
         for p, want in new.items():
-            if after.get(p) != want:
+            if through(after, p) != want:
                 return bad("commit-incomplete", f"{p} does not hold its complete new content after a successful save")
         if not r.get("retried", True):
             for p, want in post.items():
-                if after.get(p) != want:
+                if through(after, p) != want:
                     return bad("commit-differs-from-model", f"{p} on disk is not what the model object serialises to after a successful save")
-        other = [p for p in changed if p not in new]
+        other = [p for p in changed if p not in behind_new]
         if other:
-            return bad("commit-touches-others", f"files not written were changed: {other}")
+            return bad(at_links("commit-touches-others", other), f"files not written were changed: {other}")
         if leftover and not unlink_faults:
             return bad("temp-left", f"temporary files remain after a successful save: {leftover}")
     elif not failed and dry_run:
@@ -664,7 +881,7 @@ def monitor(sc: Scenario, schedule, dry_run: bool, r: dict) -> tuple[str, str] |
         if dchanged and lost_tmp_named(dchanged):
             return lost_tmp_named(dchanged)
         if dchanged:
-            return bad("dry-run-changes", f"dry-run changed {changed}")
+            return bad(at_links("dry-run-changes", dchanged), f"dry-run changed {changed}")
         if leftover and not unlink_faults:
             return bad("temp-left", f"temporary files remain after dry-run: {leftover}")
     else:
@@ -697,14 +914,15 @@ def monitor(sc: Scenario, schedule, dry_run: bool, r: dict) -> tuple[str, str] |
             if real_changed and lost_tmp_named(real_changed):
                 return lost_tmp_named(real_changed)
             if real_changed:
-                return bad("files-changed", f"failed save (nothing committed) changed {real_changed}")
+                return bad(at_links("files-changed", real_changed), f"failed save (nothing committed) changed {real_changed}")
         else:
             # partially committed (fault after the first rename): outside "before the transaction commits";
             # still: no torn file
             for p in changed:
                 if p in temps and p not in new and p not in before:
                     continue
-                if p not in new or after.get(p) != new[p]:
+                owners = [n for n in new if p in chain_of(before, n)]   # p itself, or the link that led to p
+                if not owners or any(through(after, n) != new[n] for n in owners):
                     return bad("torn-file", f"{p} is neither its old nor its complete new content after a late fault")
         if leftover:
             # a temp file may only survive if its own unlink was refused, or clean-up was interrupted by a non-OSError
@@ -751,15 +969,16 @@ def monitor(sc: Scenario, schedule, dry_run: bool, r: dict) -> tuple[str, str] |
         if r["txn_final"] is not None:
             return bad("txn-stuck", "transaction set not reset after retry")
         for p, want in new.items():
-            if final.get(p) != want:
+            if through(final, p) != want:
                 return bad("retry-incomplete", f"{p} wrong after retry")
         for p, want in post.items():
-            if final.get(p) != want:
+            if through(final, p) != want:
                 return bad("retry-differs-from-model", f"{p} on disk is not what the model object serialises to after the retry")
         extra = sorted(p for p in final if p not in before and p not in new)
         if extra:
-            return bad("temp-left", f"temporary files remain after retry: {extra}")
-        other = sorted(p for p in before if p not in new and final.get(p) != before[p])
+            return bad("temp-left" if set(extra) <= temps else "stray-file" + ("@outside-root" if any(p.startswith("../") for p in extra) else ""),
+                       f"temporary files remain after retry: {extra}")
+        other = sorted(p for p in before if p not in behind_new and final.get(p) != before[p])
         if other:
             return bad("retry-touches-others", f"retry changed {other}")
     return None
@@ -875,10 +1094,10 @@ def schedules_for(ctx: Ctx, sc: Scenario, dry_run: bool, n_points: int, n_body: 
             pairs.append((i, j))
     if not ctx.thorough or big:
         rng.shuffle(pairs)
-        pairs = pairs[: 12 if big else 40]
+        pairs = pairs[: 12 if big or (sc.light and not ctx.thorough) else 40]
     for i, j in pairs:
         out.append({i: (rng.choice(KINDS), rng.random() < 0.3), j: (rng.choice(KINDS), False)})
-    for _ in range(ctx.pick(6, 40)):
+    for _ in range(ctx.pick(3 if sc.light else 6, 40)):
         idx = rng.sample(range(n_points + 2), k=min(3, n_points + 2))
         out.append({i: (rng.choice(KINDS), rng.random() < 0.3) for i in idx})
     return out
@@ -915,7 +1134,7 @@ def histories_for(ctx: Ctx, sc: "ModelScenario", n_points: dict[bool, int], n_bo
         [fail(edit=some(), lo=per, hi=nb), dict(save, edit=some())],   # an edit between the failed save and the retry
         [fail(edit=True, lo=nb, hi=n_points[False]), save],            # fault while committing / cleaning up
     ]
-    for _ in range(ctx.pick(6, 60)):
+    for _ in range(ctx.pick(2 if sc.light else 6, 60)):
         h = []
         for _ in range(rng.randint(1, 4)):
             k = rng.choice(["save", "dry", "fail", "fail", "faildry"])
@@ -928,7 +1147,8 @@ def histories_for(ctx: Ctx, sc: "ModelScenario", n_points: dict[bool, int], n_bo
 
 
 def run_history(ctx: Ctx, out: Outcome, sc: "ModelScenario", hist: list[dict], reqs, obss, metas) -> None:
-    start = snapshot(sc.root)
+    sc.prepare()
+    start = sc.snap()
     prev = "first"
     done = []
     for st in hist:
@@ -957,6 +1177,28 @@ def run_history(ctx: Ctx, out: Outcome, sc: "ModelScenario", hist: list[dict], r
         for rel in set(r["after"]) - set(start) - {p for p, _ in r["frags"]}:
             with contextlib.suppress(OSError):
                 (sc.root / rel).unlink()
+
+
+def note_links(out: Outcome, sc: Scenario, dry_run: bool, r: dict) -> None:
+    """Coverage of the scenarios with symbolic links, and the OBSERVATION (not judged, see design/C15.md round 5) of what a
+    successful save does to a written file that was a link."""
+    before, after = r["before"], r["after"]
+    written_links = [p for p, _ in r["frags"] if before.get(p, b"").startswith(LINK)]
+    folder_links = [p for p, _ in r["frags"] if any(before.get(pp.as_posix(), b"").startswith(LINK)
+                                                    for pp in pathlib.PurePosixPath(p).parents)]
+    kind = "failed" if r["seen"] is not None else "dry" if dry_run else "ok"
+    if written_links:
+        out.hit(f"links:file-link:{kind}")
+    if folder_links:
+        out.hit(f"links:folder-link:{kind}")
+    if any(not c[-1].startswith("../") for p in written_links if len(c := chain_of(before, p)) > 1):
+        out.hit(f"links:leads-inside-root:{kind}")
+    if kind == "ok":
+        obs = out.extra.setdefault("successful_save_of_a_link", {})
+        for p in written_links:
+            k = "link replaced by a regular file, target untouched" if not after.get(p, b"").startswith(LINK) \
+                and all(after.get(q) == before.get(q) for q in chain_of(before, p)[1:]) else "other"
+            obs[k] = obs.get(k, 0) + 1
 
 
 def run(ctx: Ctx) -> Outcome:
@@ -996,6 +1238,8 @@ def run(ctx: Ctx) -> Outcome:
                     out.hit("open:temp-name-clash-refused")
                 if any(len(pathlib.PurePosixPath(p_).name.encode()) > 250 for p_, _ in r["frags"]) and any(ev == "rename" for ev, _ in inj.trace):
                     out.hit("tmpname:cut-name-committed")
+                if sc.layout:
+                    note_links(out, sc, dry_run, r)
                 verdict = monitor(sc, schedule, dry_run, r)
                 if verdict:
                     sig, what = verdict
